@@ -688,11 +688,18 @@ type swapRequestPayload struct {
 }
 
 func (w *Wallet) createSwapRequest(proofs cashu.Proofs, mint *walletMint) (swapRequestPayload, error) {
-	keysetCounter := w.counterForKeyset(mint.activeKeyset.Id)
+	// the keyset of a mint the wallet does not know (token swapped at its mint before
+	// being moved to the trusted mint) is not stored and has no counter to follow:
+	// those outputs get random secrets instead of reusing counter 0 every time
+	var counter *uint32
+	if w.db.GetKeyset(mint.activeKeyset.Id) != nil {
+		keysetCounter := w.counterForKeyset(mint.activeKeyset.Id)
+		counter = &keysetCounter
+	}
 
 	fees := feesForProofs(proofs, mint)
 	split := w.splitWalletTarget(proofs.Amount()-uint64(fees), mint.mintURL)
-	outputs, secrets, rs, err := w.createBlindedMessages(split, mint.activeKeyset.Id, &keysetCounter)
+	outputs, secrets, rs, err := w.createBlindedMessages(split, mint.activeKeyset.Id, counter)
 	if err != nil {
 		return swapRequestPayload{}, fmt.Errorf("createBlindedMessages: %v", err)
 	}
@@ -764,6 +771,13 @@ func (w *Wallet) swapToTrusted(proofs cashu.Proofs, mint *walletMint) (uint64, e
 		newProofs, err := swap(mint.mintURL, req)
 		if err != nil {
 			return 0, fmt.Errorf("could not swap proofs: %v", err)
+		}
+		// the outputs were derived from the counter of the keyset: move it on as
+		// Receive does (the keyset of a mint the wallet does not know is not stored)
+		if w.db.GetKeyset(req.keyset.Id) != nil {
+			if err := w.db.IncrementKeysetCounter(req.keyset.Id, uint32(len(req.outputs))); err != nil {
+				return 0, fmt.Errorf("error incrementing keyset counter: %v", err)
+			}
 		}
 		proofsToSwap = newProofs
 	}
